@@ -14,7 +14,7 @@ from cobald.composite.uniform import UniformComposite
 from cobald.composite.weighted import WeightedComposite
 
 REL = 1e-9
-FRACS = [0.0, 0.0, 0.125, 0.25, 0.5, 0.75, 1.0, 1.0, 1e-100, 1e-9, 0.3, 0.1, 0.7]
+FRACS = [0.0, 0.0, 0.125, 0.25, 0.5, 0.75, 1.0, 1.0, 1e-100, 1e-9, 0.3, 0.1, 0.7, 1.25, 1.5, 2.0]  # overbooked pools report more than 1
 SUPPLIES = [0.0, 0.0, 1.0, 2.0, 3.0, 8.0, 10.0, 0.1, 1e-100, 1e-9, 1e9, 1e100, 7.0, 1000.0]
 DEMANDS = [0.0, 1.0, 2.0, 3.0, 10.0, 0.1, 0.3, 1e-100, 1e-9, 1e9, 1e100, 7.0, 100.0, 1, 10, 0]
 
